@@ -186,8 +186,42 @@ def prefix_names(rng, g):
                         m["fallback"] = new
 
 
+def gen_shared(rng):
+    """Several producers of ONE output name: exclusive branches of an if/else or a route (all producing `w`, consumed downstream),
+    or an ordered second writer (P1 -> v and a signal, P2 waits for the signal and writes v again), in every node order."""
+    def F(name, ins, outs, emit=(), wait=()):
+        return {"name": name, "kind": "func", "inputs": list(ins), "outputs": list(outs), "emit": list(emit), "wait_for": list(wait), "defaults": {}, "fn": ["sym", name]}
+    nodes = []
+    if rng.random() < 0.7:
+        k = rng.choice([2, 2, 3])
+        br = [f"b{i}" for i in range(k)]
+        if k == 2 and rng.random() < 0.6:
+            nodes.append({"name": "g0", "kind": "ifelse", "inputs": ["c0"], "outputs": [], "emit": [], "wait_for": [], "defaults": {},
+                          "fn": ["glt", 1], "when_true": br[0], "when_false": br[1], "default_open": False})
+        else:
+            nodes.append({"name": "g0", "kind": "route", "inputs": ["c0"], "outputs": [], "emit": [], "wait_for": [], "defaults": {},
+                          "fn": ["gtable", [[i, b] for i, b in enumerate(br)], br[0]], "targets": list(br), "multi": False, "fallback": None, "default_open": False})
+        for i, b in enumerate(br):
+            nodes.append(F(b, [rng.choice(["x0", "x1"])], ["w"] + ([f"own{i}"] if rng.random() < 0.4 else [])))
+        nodes.append(F("use", ["w"] + (["x1"] if rng.random() < 0.5 else []), ["z"]))
+        if rng.random() < 0.5:
+            nodes.append(F("use2", ["w", "z"], ["z2"]))
+        ext = ["c0", "x0", "x1"]
+    else:
+        nodes.append(F("p1", ["x0"], ["v"], emit=["s1"]))
+        nodes.append(F("p2", ["x1"], ["v"], wait=["s1"]))
+        nodes.append(F("cons", ["v"], ["z"]))
+        if rng.random() < 0.5:
+            nodes.append(F("cons2", ["v", "z"], ["z2"]))
+        ext = ["x0", "x1"]
+    rng.shuffle(nodes)
+    return {"nodes": nodes, "bound": {}, "entrypoints": None, "selected": None, "ext": ext, "int_valued": list(ext)}
+
+
 def gen_case(rng, family, renames):
-    if family in ("dag", "gated", "emit", "endgates"):
+    if family == "shared":
+        g = gen_shared(rng)
+    elif family in ("dag", "gated", "emit", "endgates"):
         g = gen.gen_dag(rng, max_nodes=7, emits=0.45 if family == "emit" else 0.0, edge_defaults=0.0)
         if family == "gated" or (family == "emit" and rng.random() < 0.3):
             g = gen.add_gates(rng, g)
@@ -269,6 +303,21 @@ def truth(G, prefix=()):
             ent["hend"] = bd.get("when_true") == "END" or bd.get("when_false") == "END" or "END" in tv
         out.append(ent)
     edges = [(u, v, d.get("edge_type", "data"), list(d.get("value_names") or [])) for u, v, d in G.nx_graph.edges(data=True)]
+    # Graph.nx_graph draws a shared output name from its FIRST producer only; every further producer (an exclusive branch, an
+    # ordered second writer) feeds the same consumers and is a dependency all the same (name-matched graphs only)
+    if getattr(G, "_explicit_edges", None) is None:
+        have = {(u, v) for u, v, _, _ in edges}
+        for cname, c in G.nodes.items():
+            for p in c.inputs:
+                producers = [nm for nm, m in G.nodes.items() if p in m.outputs]
+                for src in producers[1:]:
+                    if (src, cname) in have:
+                        for k, e in enumerate(edges):
+                            if (e[0], e[1]) == (src, cname) and e[2] == "data" and p not in e[3]:
+                                edges[k] = (e[0], e[1], e[2], e[3] + [p])
+                    else:
+                        edges.append((src, cname, "data", [p]))
+                        have.add((src, cname))
     return out, edges
 
 
@@ -550,7 +599,7 @@ def emit_case(batch, i, g, ob):
     return N, K, tags, meta
 
 
-FAMILIES = ["dag", "dag", "gated", "gated", "endgates", "emit", "loop", "loop_sync", "cyc", "twocyc"]
+FAMILIES = ["dag", "dag", "gated", "gated", "endgates", "emit", "loop", "loop_sync", "cyc", "twocyc", "shared"]
 
 
 def run(ctx):
